@@ -39,6 +39,7 @@ CovBGet == Live /\ \E i \in Ids : BGet(i) /\ (faults' > faults => Sometimes)
 CovBPost == Live /\ \E i \in Ids : BPost(i) /\ (faults' > faults => Sometimes)
 CovBPost2 == Live /\ \E i \in Ids : BPost2(i) /\ (faults' > faults => Sometimes)
 CovBPut == Live /\ \E i \in Ids : BPut(i) /\ (faults' > faults => Sometimes)
+CovBRewind == Live /\ \E i \in Ids : BRewind(i) /\ (faults' > faults => Sometimes)
 CovBPatch == Live /\ \E i \in Ids : BPatch(i) /\ (faults' > faults => Sometimes)
 CovBPut2 == Live /\ \E i \in Ids : BPut2(i) /\ (faults' > faults => Sometimes)
 CovBDel == Live /\ \E i \in Ids : BDel(i) /\ (faults' > faults => Sometimes)
@@ -77,6 +78,7 @@ CovNext == \/ CovMStart
         \/ CovBPost
         \/ CovBPost2
         \/ CovBPut
+        \/ CovBRewind
         \/ CovBPatch
         \/ CovBPut2
         \/ CovBDel
